@@ -189,6 +189,17 @@ func init() {
 	libModels["fs.DirEntry.Name"] = func(x *Exec, st *State, e *ast.CallExpr, a []Value, _ []types.Type) (Value, bool) {
 		return x.uf("lib_DirEntry_Name", SStr, asTerm(a[0])), true
 	}
+	libModels["reflect.Type.Field"] = func(x *Exec, st *State, e *ast.CallExpr, a []Value, _ []types.Type) (Value, bool) {
+		// the i-th field descriptor of a struct type: a fixed location per (type, index)
+		t := x.uf("rtField", SInt, asTerm(a[0]), asTerm(a[1]))
+		if !x.underBinder(t.S) {
+			x.declare("(assert (> "+t.S+" 0))", "ax_rtfield:"+t.S)
+		}
+		return t, true
+	}
+	libModels["reflect.Type.Implements"] = func(x *Exec, st *State, e *ast.CallExpr, a []Value, _ []types.Type) (Value, bool) {
+		return x.uf("rtImplements", SBool, asTerm(a[0]), asTerm(a[1])), true
+	}
 	libModels["reflect.Type.ChanDir"] = func(x *Exec, st *State, e *ast.CallExpr, a []Value, _ []types.Type) (Value, bool) {
 		return x.uf("rtChanDir", SInt, asTerm(a[0])), true
 	}
